@@ -269,35 +269,48 @@ def run_pool(order, modname, tier, jobs, limit):
     results = []
     hangs = []
     exited = set()
-    while pending > 0:
+    state = {"pending": pending}
+
+    def handle(msg):
+        if msg[0] == "start":
+            current[msg[1]] = msg[2]
+        elif msg[0] == "done":
+            current.pop(msg[1], None)
+            results.append(msg[2])
+            state["pending"] -= 1
+            feed_one()
+        elif msg[0] == "hang":
+            _, slot, case, secs = msg
+            hangs.append({"unit": current.get(slot), "case": case, "seconds": round(secs, 1)})
+        elif msg[0] == "exit":
+            exited.add(msg[1])
+
+    while state["pending"] > 0:
         if res_q._reader.poll(1.0):
-            msg = res_q.get()
-            if msg[0] == "start":
-                current[msg[1]] = msg[2]
-            elif msg[0] == "done":
-                current.pop(msg[1], None)
-                results.append(msg[2])
-                pending -= 1
-                feed_one()
-            elif msg[0] == "hang":
-                _, slot, case, secs = msg
-                hangs.append({"unit": current.get(slot), "case": case, "seconds": round(secs, 1)})
-            elif msg[0] == "exit":
-                exited.add(msg[1])
+            handle(res_q.get())
             continue
-        for slot, p in list(procs.items()):
-            if not p.is_alive() and slot not in exited:
+        dead = [slot for slot, p in procs.items() if not p.is_alive() and slot not in exited]
+        if not dead:
+            continue
+        # a worker may have finished and exited between the poll and the scan:
+        # read everything it (and the others) already sent before judging
+        while res_q._reader.poll(0.2):
+            handle(res_q.get())
+        for slot in dead:
+            p = procs[slot]
+            if slot in exited:
+                continue
+            p.join()
+            if slot in current:
                 # died (watchdog exit or crash) while holding a unit
-                p.join()
-                if slot in current:
-                    idx = current.pop(slot)
-                    pending -= 1
-                    if not any(h["unit"] == idx for h in hangs):
-                        hangs.append({"unit": idx, "case": None, "seconds": None, "exitcode": p.exitcode})
-                    spawn(slot)
-                    feed_one()
-                else:
-                    exited.add(slot)
+                idx = current.pop(slot)
+                state["pending"] -= 1
+                if not any(h["unit"] == idx for h in hangs):
+                    hangs.append({"unit": idx, "case": None, "seconds": None, "exitcode": p.exitcode})
+                spawn(slot)
+                feed_one()
+            else:
+                exited.add(slot)
     while sentinels[0] < jobs:
         sentinels[0] += 1
         task_q.put(None)
